@@ -316,7 +316,7 @@ class Run:
             with open(path, "w") as fh:
                 fh.write(raw)
             lines.append("VIOLATION property=%s replay=%s" % (self.prop, path))
-            log("  sig=%s  %s" % (f.get("sig"), str(f.get("msg"))[:1500]))
+            log("  sig=%s  %s" % (f.get("sig"), str(f.get("msg"))[:700]))
         for k in hits.values():
             print("KNOWN-FINDING: property=%s %s" % (self.prop, k.get("what", k.get("sig"))), flush=True)
         for l in lines:
